@@ -1,6 +1,6 @@
 """C05 - a rule is valid iff every node its path selects satisfies its condition."""
 from ..runner import TestSpec, Outcome
-from ..terms import show
+from ..terms import show, Op
 from .. import model, build, gen as G, spec as SP
 from ..snapshot import exact
 
@@ -27,6 +27,17 @@ def gen_case(r):
         if sel:
             node = r.choice(sel)[0]
             rule = rule.replace(cond=G.anchored_value_cond(r, node, mode, 2, meaningful=via_spec))
+    if r.pct() < 8:
+        # xor-heavy combinations of leaves that a selected node satisfies: (A ^ B) & ((C ^ D) ^ E) ...
+        sel = model.ref_select(rule.path.parts, d) if rule.path.parts else [(d, ())]
+        if sel:
+            node = r.choice(sel)[0]
+            lf = lambda: G.anchored_value_cond(r, node, mode, 0, meaningful=via_spec)
+            shape = r.pct()
+            x1 = Op("xor", lf(), lf())
+            x2 = Op("xor", Op("xor", lf(), lf()), lf())
+            t = Op("and", x1, x2) if shape < 40 else Op("or", x2, x1) if shape < 70 else Op("xor", x1, Op("xor", x2, lf()))
+            rule = rule.replace(cond=t)
     spec = SP.rule_spec(rule, SP.Spelling(r)) if via_spec else None
     return d, rule, r.coin(), spec
 
